@@ -488,6 +488,27 @@ pub fn run(ctx: &Ctx) {
         // an unknown key changes the cache key, not the result
         (vec![HOp::Cfg(on.clone()), HOp::Lint(SHARED[2].into(), Lang::Plain), HOp::Cfg({ let mut m = on.clone(); m.insert("NoSuchRule".into(), Some(true)); m }), HOp::Lint(SHARED[2].into(), Lang::Plain)], "corpus"),
     ];
+    // exactly ONE rule toggled between two lints of the same text (a cache key that ignores part of
+    // the configuration survives histories that always flip several rules at once)
+    for (text, rule) in [
+        ("We had to change tact after the meeting.", "ChangeTack"),
+        ("However, it were a alot worse then.", "ALot"),
+        ("I could of gone there.", "ModalOf"),
+        ("He held his baited breath again.", "BaitedBreath"),
+        ("I was stuck there for along time.", "ForALongTime"),
+        ("This is an test of the the thing.", "RepeatedWords"),
+        ("This is an test of the the thing.", "AnA"),
+        ("I think teh cat is here.", "SpellCheck"),
+    ] {
+        let mut off = on.clone();
+        off.insert(rule.to_string(), Some(false));
+        for lang in [Lang::Plain, Lang::Markdown] {
+            histories.push((vec![
+                HOp::Cfg(on.clone()), HOp::Lint(text.into(), lang), HOp::Cfg(off.clone()), HOp::Lint(text.into(), lang),
+                HOp::Cfg(on.clone()), HOp::Lint(text.into(), lang), HOp::Cfg(off.clone()), HOp::Lint(format!("Well then. {}", text), lang),
+            ], "corpus"));
+        }
+    }
     let npool = if thorough { 1500 } else { 300 };
     let mut pool: Vec<(String, Lang)> = vec![];
     for s in SHARED {
